@@ -228,7 +228,7 @@ def g_ioc(spec, r):
                             b"a.notatld", b"xn--abcde.xn--p1ai", b"foo.com1", b"foo.com0", b"x@y.com", b"a..b@example.com",
                             b"user@host.zzzzq", b"1.2.3.4%20", b"\\\\010.1.1.1\\share\\f.txt", b"\\\\?\\UNC\\0x7f.1\\share\\a.dll",
                             # short-form hosts whose canonical form is longer than what follows them once dot segments are removed
-                            b"\\\\.\\UNC\\7\\.\\run", b"\\\\.\\UNC\\10\\tmp\\..\\abc", b"\\\\?\\UNC\\1\\a\\..\\..\\xyz", b"\\\\7\\.\\run",
+                            b"\\\\.\\UNC\\10.20.30.40\\..\\abc", b"\\\\.\\UNC\\files.example.com\\..\\xy.txt", b"\\\\.\\UNC\\7\\.\\run", b"\\\\.\\UNC\\10\\tmp\\..\\abc", b"\\\\?\\UNC\\1\\a\\..\\..\\xyz", b"\\\\7\\.\\run",
                             b"http://[::ffff:7f00:1]/", b"http://[0:0:0:0:0:FFFF:0A00:0005]/x"])
         yield "ioc", _embed(r, ind), None
 
